@@ -60,6 +60,8 @@ def programs(t):
                                        ev(0xdead0020, 3, (t, 4, 4, 4), t), ev('BSC_getegid', 2, (0, 1, 0, 0), t)],
         # the thread that reaps a sibling: its terminate record names ANOTHER participating thread
         'reaps-a-sibling': [ev('BSC_getgid', 1, tid=t), ev('TRACE_DATA_THREAD_TERMINATE', 0, (t % 3 + 1, 0, 0, 0), t), ev('BSC_getgid', 2, (0, 1, 0, 0), t)],
+        # lone records (NONE / ALL) of calls that other threads make as START..END pairs
+        'lone-records-of-calls': [ev('BSC_getppid', 0, (0, 0, 0, 0), t), ev('BSC_getpid', 3, (0, 0, 0, 0), t), ev('BSC_getuid', 0, (0, 0, 0, 0), t)],
         'exec+rename': [ev('TRACE_DATA_EXEC', 0, (pid + 2, 0, 0, 0), t), ev('BSC_getpid', 1, tid=t), ev('TRACE_STRING_EXEC', 0, tid=t, data=S(nm + b'y')),
                         ev('BSC_getpid', 2, (0, pid, 0, 0), t)],
     }
@@ -175,7 +177,7 @@ def judge(combo, schedule, trunc, prefilled=False):
 class C05(Check):
     pid = 'C05'
     level = 'model_checking'
-    rule = ('schedules: for every ordered pair (and, per tier, triple) of per-thread programs from a library of 19 (syscall with '
+    rule = ('schedules: for every ordered pair (and, per tier, triple) of per-thread programs from a library of 20 (syscall with '
             'lookup, NEWTHREAD data+string, EXEC data+string, nested syscalls, thread name + terminate, sampler window, global '
             'string + dlopen, 3-record lookup inside stat64, page fault with nested record, launch with nested map, EXEC pair with '
             'an unrelated syscall in between, NEWTHREAD pair announcing a sibling participant\'s thread id, two ENDs whose STARTs fell before the capture, a read whose records are byte-identical on every thread, a call interrupted by the lost-events marker of the kernel, a NEWTHREAD pair whose thread id is numerically the process id a sibling names), each parameterised by its own tid/pid/names, EVERY interleaving (merge preserving '
